@@ -190,7 +190,6 @@ def run_shard(shard, tier, acc):
                         acc.violation("insensitive", method, "wrapping-or-identity-changes-the-answer", case, True, [r, r2])
                     acc.nontriv((method, "variant", repr(a), repr(v)))
     elif kind == "lists":
-        from graphiq.utils.circuit_comparison import remove_redundant_circuits, CircuitStorage
         lay = (2, 1, 1)
         sub = [[], [["1", "H", "e", 0]], [["1", "H", "e", 1]], [["W", ["H"], "e", 0]], [["1", "H", "e", 0], ["1", "I", "e", 0]],
                [["CNOT", "e", 0, "e", 1]], [["CNOT", "e", 1, "e", 0]], [["CNOT", "e", 0, "p", 0]], [["CNOT", "e", 1, "p", 0]],
@@ -200,31 +199,7 @@ def run_shard(shard, tier, acc):
         for rest in itertools.chain([()], itertools.product(range(len(sub)), repeat=1), itertools.product(range(len(sub)), repeat=2)):
             idx = (i,) + tuple(rest)
             progs = [sub[k] for k in idx]
-            circs = [gq.build_circuit(lay, p) for p in progs]
-            case = {"layout": list(lay), "list": progs}
-            acc.evaluations += 2
-            acc.transitions += 2
-            try:
-                kept = remove_redundant_circuits(circs)
-                kept_idx = [k for k, c in enumerate(circs) if any(c is x for x in kept)]
-                if len(kept_idx) != len(kept):
-                    acc.violation("dedup", "remove_redundant_circuits", "returned-objects-not-from-input", case, "subset of input", len(kept))
-                for k in range(len(circs)):
-                    if k not in kept_idx and not any(equivalent(lay, progs[k], progs[m], True) for m in kept_idx):
-                        acc.violation("dedup", "remove_redundant_circuits", "dropped-a-circuit-inequivalent-to-all-kept", dict(case, dropped=k), "kept", "dropped")
-            except Exception as e:
-                acc.violation("dedup", "remove_redundant_circuits", "raises-" + type(e).__name__, case, "a list", repr(e)[:200])
-            try:
-                st = CircuitStorage()
-                kept_idx = []
-                for k, c in enumerate(circs):
-                    if st.add_new_circuit(c):
-                        kept_idx.append(k)
-                    elif not any(equivalent(lay, progs[k], progs[m], False) for m in kept_idx):
-                        acc.violation("dedup", "CircuitStorage.add_new_circuit", "refused-a-circuit-inequivalent-to-all-stored", dict(case, refused=k), "stored", "refused")
-            except Exception as e:
-                acc.violation("dedup", "CircuitStorage", "raises-" + type(e).__name__, case, "bool", repr(e)[:200])
-            acc.validated += 1
+            case = list_case(acc, lay, progs)
             if len(idx) > 1:
                 acc.nontriv(("list", idx))
         acc.sample(case)
@@ -283,28 +258,7 @@ def run_shard(shard, tier, acc):
         for base, pos, newl in (([["1", "I", "e", 0], ["CNOT", "e", 0, "e", 1]], ("e", 0, 0), ["1", "H", "e", 0]),
                                 ([["CNOT", "e", 0, "p", 0], ["1", "I", "p", 0]], ("p", 0, 1), ["1", "X", "p", 0]),
                                 ([["1", "H", "e", 1], ["1", "I", "e", 1], ["CNOT", "e", 1, "e", 0]], ("e", 1, 1), ["1", "P", "e", 1])):
-            edited = gq.build_circuit(lay, base)
-            node = wire_edges(edited, pos[0], pos[1])[pos[2]][1]
-            edited.replace_op(node, gq.make_op(newl))
-            idx = [k for k, l in enumerate(base) if l[0] == "1" and l[1] == "I"][0]
-            same = base[:idx] + [newl] + base[idx + 1:]
-            without = base[:idx] + base[idx + 1:]
-            for method in ("direct", "is_isomorphic"):
-                for other, exp in ((same, True), (without, None)):
-                    case = {"layout": list(lay), "a": {"built": base, "then_replace_op": [list(pos), newl]}, "b": other, "method": method}
-                    acc.evaluations += 1
-                    acc.transitions += 1
-                    try:
-                        r = bool(edited.compare(gq.build_circuit(lay, other), method=method))
-                        r2 = bool(gq.build_circuit(lay, other).compare(edited, method=method))
-                    except Exception as e:
-                        acc.violation("compare", method, "raises-" + type(e).__name__, case, "a bool", repr(e)[:200])
-                        continue
-                    if exp is True and not (r and r2):
-                        acc.violation("insensitive", method, "edited-circuit-not-equal-to-the-same-circuit-built-directly", case, True, [r, r2])
-                    if exp is None and (r or r2) and not equivalent(lay, same, other, method == "is_isomorphic"):
-                        acc.violation("soundness", method, "inequivalent-circuits-reported-equal", case, False, True)
-                    acc.nontriv(("replaced", repr(base), method, repr(other)))
+            replaced_case(acc, lay, base, pos, newl)
     elif kind == "ged":
         lay = (2, 1, 1)
         fam = family(lay, 1)
@@ -320,15 +274,81 @@ def run_shard(shard, tier, acc):
                     acc.violation("reflexive", "GED_full", "circuit-not-equal-to-itself", case, True, False)
 
 
+def list_case(acc, lay, progs):
+    from graphiq.utils.circuit_comparison import remove_redundant_circuits, CircuitStorage
+    circs = [gq.build_circuit(lay, p) for p in progs]
+    case = {"layout": list(lay), "list": progs}
+    acc.evaluations += 2
+    acc.transitions += 2
+    try:
+        kept = remove_redundant_circuits(circs)
+        kept_idx = [k for k, c in enumerate(circs) if any(c is x for x in kept)]
+        if len(kept_idx) != len(kept):
+            acc.violation("dedup", "remove_redundant_circuits", "returned-objects-not-from-input", case, "subset of input", len(kept))
+        for k in range(len(circs)):
+            if k not in kept_idx and not any(equivalent(lay, progs[k], progs[m], True) for m in kept_idx):
+                acc.violation("dedup", "remove_redundant_circuits", "dropped-a-circuit-inequivalent-to-all-kept", dict(case, dropped=k), "kept", "dropped")
+    except Exception as e:
+        acc.violation("dedup", "remove_redundant_circuits", "raises-" + type(e).__name__, case, "a list", repr(e)[:200])
+    try:
+        st = CircuitStorage()
+        kept_idx = []
+        for k, c in enumerate(circs):
+            if st.add_new_circuit(c):
+                kept_idx.append(k)
+            elif not any(equivalent(lay, progs[k], progs[m], False) for m in kept_idx):
+                acc.violation("dedup", "CircuitStorage.add_new_circuit", "refused-a-circuit-inequivalent-to-all-stored", dict(case, refused=k), "stored", "refused")
+    except Exception as e:
+        acc.violation("dedup", "CircuitStorage", "raises-" + type(e).__name__, case, "bool", repr(e)[:200])
+    acc.validated += 1
+    return case
+
+
+def replaced_case(acc, lay, base, pos, newl, only=None):
+    from .c12 import wire_edges
+    edited = gq.build_circuit(lay, base)
+    node = wire_edges(edited, pos[0], pos[1])[pos[2]][1]
+    edited.replace_op(node, gq.make_op(newl))
+    idx = [k for k, l in enumerate(base) if l[0] == "1" and l[1] == "I"][0]
+    same = base[:idx] + [newl] + base[idx + 1:]
+    without = base[:idx] + base[idx + 1:]
+    for method in ("direct", "is_isomorphic"):
+        for other, exp in ((same, True), (without, None)):
+            case = {"layout": list(lay), "a": {"built": base, "then_replace_op": [list(pos), newl]}, "b": other, "method": method}
+            acc.evaluations += 1
+            acc.transitions += 1
+            try:
+                r = bool(edited.compare(gq.build_circuit(lay, other), method=method))
+                r2 = bool(gq.build_circuit(lay, other).compare(edited, method=method))
+            except Exception as e:
+                acc.violation("compare", method, "raises-" + type(e).__name__, case, "a bool", repr(e)[:200])
+                continue
+            if exp is True and not (r and r2):
+                acc.violation("insensitive", method, "edited-circuit-not-equal-to-the-same-circuit-built-directly", case, True, [r, r2])
+            if exp is None and (r or r2) and not equivalent(lay, same, other, method == "is_isomorphic"):
+                acc.violation("soundness", method, "inequivalent-circuits-reported-equal", case, False, True)
+            acc.nontriv(("replaced", repr(base), method, repr(other)))
+
+
 def replay_case(case, acc):
     if "list" in case:
-        raise core.HarnessError("replay of list cases: run ./check C15 quick")
+        list_case(acc, tuple(case["layout"]), case["list"])
+        return
+    if isinstance(case.get("a"), dict) and "then_replace_op" in case["a"]:
+        pos, newl = case["a"]["then_replace_op"]
+        replaced_case(acc, tuple(case["layout"]), case["a"]["built"], tuple(pos), newl)
+        return
     la = tuple(case.get("layout_a", case.get("layout")))
     lb = tuple(case.get("layout_b", case.get("layout")))
     a = case["a"]
     b = a if case["b"] == "copy" else case["b"]
     ca, cb = gq.build_circuit(la, a), gq.build_circuit(lb, b)
     r = compare(acc, ca, cb, case["method"], case)
+    r2 = compare(acc, cb, ca, case["method"], dict(case, swapped=True))
+    if r is not None and r2 is not None and r != r2:
+        acc.violation("symmetric", case["method"], "answer-depends-on-argument-order", case, r, r2)
+    if a == b and r is False:
+        acc.violation("reflexive", case["method"], "circuit-not-equal-to-itself", case, True, False)
     if la == lb and r and not equivalent(la, a, b, case["method"] == "is_isomorphic"):
         acc.violation("soundness", case["method"], "inequivalent-circuits-reported-equal", case, False, True)
     if la == lb and r is False and (case["b"] == "copy" or b in variants(a) or a == b):
